@@ -1,5 +1,6 @@
 """Per-property check plans (what TLC explores, what is replayed, what is recorded and validated)."""
 import json
+import time
 import os
 import random
 
@@ -597,6 +598,7 @@ def c15(chk):
     if not bad["violated"]:
         raise ToolError("the non-atomic insert design should violate AtMostOneWinner — the invariant is vacuous")
     chk.extra["nonatomic_design_counterexample_found"] = True
+    key_id_store_proofs(chk)
     # real races, linearizability decided by TLC
     rounds, n_tr = q(chk, (150, 1), (2500, 8))
     record_and_validate(chk, "C15.race", "KeyIdStoreTrace", "KeyIdStoreTrace.cfg", rounds, n_tr, "key_id_store/race",
@@ -604,6 +606,42 @@ def c15(chk):
     chk.assumptions += ["Ed25519/SHA-256 primitives trusted",
                         "real-thread races sample schedules; exhaustive interleaving holds for the TLA+ design model only"]
     stronghold_stage(chk, r["cases_file"])
+
+
+def key_id_store_proofs(chk):
+    """The concurrent design of the key-id store, unbounded: an inductive invariant (spec/proofs/KeyIdStoreInd.tla) discharged
+    by Apalache for 16 threads and arbitrary histories, and proved by TLAPS for every set of threads. The non-atomic design
+    must fail both (the obligations are not vacuous)."""
+    d = os.path.join(vlib.SPEC, "proofs")
+    good, bad = os.path.join(d, "KeyIdStoreInd.tla"), os.path.join(d, "KeyIdStoreIndBroken.tla")
+    steps = [("Init => IndInv", ["--cinit=CInit", "--init=Init", "--inv=IndInv", "--length=0"]),
+             ("IndInv /\\ Next => IndInv'", ["--cinit=CInit", "--init=IndInit", "--inv=IndInv", "--length=1"]),
+             ("IndInv => AtMostOneWinner /\\ MappingIsWinners", ["--cinit=CInit", "--init=IndInit", "--inv=Safety", "--length=0"])]
+    t0 = time.time()
+    for what, args in steps:
+        r = vlib.apalache_check(chk.prop, good, args)
+        if not r["ok"]:
+            chk.violations.append(dict(key="key_id_store/design/inductive_invariant",
+                                       detail=dict(kind="tlc-invariant", tool="apalache", obligation=what, output=r["out"][-3000:])))
+    r = vlib.apalache_check(chk.prop, bad, steps[1][1])
+    if not r["error_found"]:
+        raise ToolError("the non-atomic design passes the induction step — the inductive invariant is vacuous")
+    log("[%s] Apalache: inductive invariant of the key-id store design holds (3 obligations, 16 threads, any history); the "
+        "non-atomic design fails the induction step; %.1fs" % (chk.prop, time.time() - t0))
+    chk.extra["design_proofs"] = dict(apalache_obligations=3, threads_apalache=16)
+    if chk.tier != "thorough":
+        return
+    t0 = time.time()
+    p = vlib.tlapm_check(chk.prop, os.path.join(d, "KeyIdStoreProof.tla"))
+    if not p["ok"]:
+        chk.violations.append(dict(key="key_id_store/design/proof",
+                                   detail=dict(kind="tlc-invariant", tool="tlapm", output=p["out"][-3000:])))
+    pb = vlib.tlapm_check(chk.prop, os.path.join(d, "KeyIdStoreProofBroken.tla"))
+    if pb["ok"]:
+        raise ToolError("TLAPS proves the invariant for the non-atomic design — the proof is vacuous")
+    log("[%s] TLAPS: Spec => []IndInv and Spec => []Safety proved for every set of threads (%d obligations); the non-atomic "
+        "design leaves %d of %d obligations unproved; %.1fs" % (chk.prop, p["obligations"], pb["failed"], pb["obligations"], time.time() - t0))
+    chk.extra["design_proofs"].update(tlaps_obligations=p["obligations"], threads_tlaps="any finite set of positive naturals")
 
 
 def stronghold_stage(chk, cases_file):
